@@ -237,6 +237,19 @@ func (s *asmState) src(a string, w uint8) (*Term, error) {
 	return nil, fmt.Errorf("unsupported source operand %s", a)
 }
 
+// asmWidth: operand width from the mnemonic's size suffix.
+func asmWidth(op string) uint8 {
+	switch op[len(op)-1] {
+	case 'B':
+		return 8
+	case 'W':
+		return 16
+	case 'L':
+		return 32
+	}
+	return 64
+}
+
 const keysPtrMagic = "·keys·"
 
 // evalAsm runs from instruction pc; returns the value stored to ret.
@@ -379,54 +392,140 @@ func (s *asmState) run(f *AsmFunc, pc int, keysReg *string) (*Term, error) {
 			if err := s.writeGpr(d, v, 32); err != nil {
 				return nil, bad("%v", err)
 			}
-		case "SALW", "SHLW":
+		case "SALB", "SHLB", "SALW", "SHLW", "SALL", "SHLL", "SALQ", "SHLQ", "SHRB", "SHRW", "SHRL", "SHRQ":
+			w := asmWidth(in.Op)
 			cnt, err := s.src(in.Args[0], 8)
 			if err != nil {
 				return nil, bad("%v", err)
 			}
-			cnt = ts.Bin(OBvAnd, cnt, ts.Const(8, 31))
-			v, err := s.src(in.Args[1], 16)
+			if w == 64 {
+				cnt = ts.Bin(OBvAnd, cnt, ts.Const(8, 63))
+			} else {
+				cnt = ts.Bin(OBvAnd, cnt, ts.Const(8, 31))
+			}
+			v, err := s.src(in.Args[1], w)
 			if err != nil {
 				return nil, bad("%v", err)
 			}
-			r := ts.Bin(OShl, v, ts.Zext(cnt, 16))
-			if err := s.writeGpr(in.Args[1], r, 16); err != nil {
+			var c *Term = cnt
+			if w > 8 {
+				c = ts.Zext(cnt, w)
+			}
+			op := OShl
+			if strings.HasPrefix(in.Op, "SHR") {
+				op = OLshr
+			}
+			r := ts.Bin(op, v, c)
+			// flags after a shift depend on the count (unchanged when it is 0): not modelled
+			s.zf = nil
+			if err := s.writeGpr(in.Args[1], r, w); err != nil {
 				return nil, bad("%v", err)
 			}
-		case "SUBW", "ANDW", "ADDW", "ORW", "XORW":
-			a, err := s.src(in.Args[0], 16)
+		case "SUBB", "ANDB", "ADDB", "ORB", "XORB", "SUBW", "ANDW", "ADDW", "ORW", "XORW",
+			"SUBL", "ANDL", "ADDL", "ORL", "XORL", "SUBQ", "ANDQ", "ADDQ", "ORQ", "XORQ":
+			w := asmWidth(in.Op)
+			a, err := s.src(in.Args[0], w)
 			if err != nil {
 				return nil, bad("%v", err)
 			}
-			v, err := s.src(in.Args[1], 16)
+			v, err := s.src(in.Args[1], w)
 			if err != nil {
 				return nil, bad("%v", err)
 			}
-			op := map[string]Op{"SUBW": OSub, "ANDW": OBvAnd, "ADDW": OAdd, "ORW": OBvOr, "XORW": OBvXor}[in.Op]
+			op := map[string]Op{"SUB": OSub, "AND": OBvAnd, "ADD": OAdd, "OR": OBvOr, "XOR": OBvXor}[in.Op[:len(in.Op)-1]]
 			r := ts.Bin(op, v, a)
-			s.zf = ts.Eq(r, ts.Const(16, 0))
-			if err := s.writeGpr(in.Args[1], r, 16); err != nil {
+			s.zf = ts.Eq(r, ts.Const(w, 0))
+			if err := s.writeGpr(in.Args[1], r, w); err != nil {
 				return nil, bad("%v", err)
 			}
-		case "CMPW":
-			a, err := s.src(in.Args[0], 16)
+		case "NOTB", "NOTW", "NOTL", "NOTQ", "NEGB", "NEGW", "NEGL", "NEGQ", "INCB", "INCW", "INCL", "INCQ", "DECB", "DECW", "DECL", "DECQ":
+			w := asmWidth(in.Op)
+			v, err := s.src(in.Args[0], w)
 			if err != nil {
 				return nil, bad("%v", err)
 			}
-			b, err := s.src(in.Args[1], 16)
+			var r *Term
+			switch in.Op[:3] {
+			case "NOT":
+				r = ts.Bin(OBvXor, v, ts.Const(w, ^uint64(0)))
+			case "NEG":
+				r = ts.Bin(OSub, ts.Const(w, 0), v)
+				s.zf = ts.Eq(r, ts.Const(w, 0))
+			case "INC":
+				r = ts.Bin(OAdd, v, ts.Const(w, 1))
+				s.zf = ts.Eq(r, ts.Const(w, 0))
+			case "DEC":
+				r = ts.Bin(OSub, v, ts.Const(w, 1))
+				s.zf = ts.Eq(r, ts.Const(w, 0))
+			}
+			if err := s.writeGpr(in.Args[0], r, w); err != nil {
+				return nil, bad("%v", err)
+			}
+		case "MOVW", "MOVL":
+			w := asmWidth(in.Op)
+			v, err := s.src(in.Args[0], w)
+			if err != nil {
+				return nil, bad("%v", err)
+			}
+			if err := s.writeGpr(in.Args[1], v, w); err != nil {
+				return nil, bad("%v", err)
+			}
+		case "MOVBLZX", "MOVBQZX", "MOVWLZX", "MOVWQZX", "MOVBWZX":
+			sw := uint8(8)
+			if in.Op[3] == 'W' {
+				sw = 16
+			}
+			dw := map[byte]uint8{'W': 16, 'L': 32, 'Q': 64}[in.Op[4]]
+			v, err := s.src(in.Args[0], sw)
+			if err != nil {
+				return nil, bad("%v", err)
+			}
+			if err := s.writeGpr(in.Args[1], ts.Zext(v, dw), dw); err != nil {
+				return nil, bad("%v", err)
+			}
+		case "CMPB", "CMPW", "CMPL", "CMPQ":
+			w := asmWidth(in.Op)
+			a, err := s.src(in.Args[0], w)
+			if err != nil {
+				return nil, bad("%v", err)
+			}
+			b, err := s.src(in.Args[1], w)
 			if err != nil {
 				return nil, bad("%v", err)
 			}
 			s.zf = ts.Eq(a, b)
-		case "TZCNTW":
-			v, err := s.src(in.Args[0], 16)
+		case "TESTB", "TESTW", "TESTL", "TESTQ":
+			w := asmWidth(in.Op)
+			a, err := s.src(in.Args[0], w)
 			if err != nil {
 				return nil, bad("%v", err)
 			}
-			if err := s.writeGpr(in.Args[1], ts.Ctz(v), 16); err != nil {
+			b, err := s.src(in.Args[1], w)
+			if err != nil {
 				return nil, bad("%v", err)
 			}
-		case "JEQ", "JNE":
+			s.zf = ts.Eq(ts.Bin(OBvAnd, a, b), ts.Const(w, 0))
+		case "TZCNTW", "TZCNTL", "TZCNTQ":
+			w := asmWidth(in.Op)
+			v, err := s.src(in.Args[0], w)
+			if err != nil {
+				return nil, bad("%v", err)
+			}
+			r := ts.Ctz(v)
+			s.zf = ts.Eq(r, ts.Const(w, 0))
+			if err := s.writeGpr(in.Args[1], r, w); err != nil {
+				return nil, bad("%v", err)
+			}
+		case "JMP":
+			tgt, ok := f.Labels[in.Args[0]]
+			if !ok {
+				return nil, bad("unknown label")
+			}
+			if tgt <= pc {
+				return nil, bad("backward jump")
+			}
+			pc = tgt - 1
+		case "JEQ", "JNE", "JZ", "JNZ":
 			if s.zf == nil {
 				return nil, bad("flags undefined")
 			}
@@ -438,7 +537,7 @@ func (s *asmState) run(f *AsmFunc, pc int, keysReg *string) (*Term, error) {
 				return nil, bad("backward jump")
 			}
 			cond := s.zf
-			if in.Op == "JNE" {
+			if in.Op == "JNE" || in.Op == "JNZ" {
 				cond = ts.Not(cond)
 			}
 			k1, k2 := *keysReg, *keysReg
